@@ -23,7 +23,11 @@ MANIFEST = {
          "past the destination, NUL-terminates inside it, copies ASCII labels unchanged, prefixes xn-- exactly for labels with non-ASCII "
          "code points, rejects ill-formed UTF-8; the UTF-16/WTF-8 converters round-trip every code-unit list (unpaired surrogates "
          "included) and their length functions are exact; validated against the implementation on exhaustive short byte strings, "
-         "class-representative grids, host names with every destination size, and against Python's punycode codec (validation, not proof).",
+         "class-representative grids, host names with every destination size, and against Python's punycode codec (validation, not proof).  "
+         "Caller of the codec (UvModel.Props.C18Gai over UvModel/GaiHost.lean): for every hints value uv_getaddrinfo refuses ill-formed and "
+         "over-long host names before the resolver is called and otherwise hands the resolver exactly the C string uv__idna_toascii stored "
+         "(<= 255 bytes); tied to the tree by harness/c18_gai.c (whole library, getaddrinfo()/freeaddrinfo() interposed, no network) over "
+         "host-name classes x hints shapes (NULL, every ai_flags bit, families, socktypes) in sync and thread-pool mode.",
  "note": "Trusted: Lean kernel (axioms propext, Classical.choice, Quot.sound); the byte-list abstraction of C strings/buffers "
          "(validated line by line against the implementation); glibc inet_pton/inet_ntop as second implementation of the grammar; "
          "snprintf %u/%x modelled for unsigned char / 16-bit arguments only; if_nametoindex (sin6_scope_id) is an OS answer checked "
